@@ -10,6 +10,8 @@ pub struct CliDiag {
     pub code: String,
     /// the first location block of the diagnostic, if any: (path, 1-based line, 1-based column)
     pub at: Option<(String, u64, u64)>,
+    /// every location block of the diagnostic (one per file that has a label), in printed order
+    pub all_at: Vec<(String, u64, u64)>,
 }
 
 #[derive(Debug, Clone)]
@@ -78,6 +80,7 @@ pub fn parse_stderr(stderr: &str) -> Vec<CliDiag> {
                 out.push(CliDiag {
                     code: rest[..end].to_string(),
                     at: None,
+                    all_at: vec![],
                 });
             }
         } else if let Some(idx) = t.find("┌─ ") {
@@ -91,6 +94,7 @@ pub fn parse_stderr(stderr: &str) -> Vec<CliDiag> {
                 if last.at.is_none() {
                     last.at = Some((p.to_string(), l, c));
                 }
+                last.all_at.push((p.to_string(), l, c));
             }
         }
     }
